@@ -52,6 +52,8 @@ def cases(tier, seed):
         yield {"fam": "rand", "i": i}
     for i in range(24 if tier == "quick" else 96):
         yield {"fam": "many", "i": i}
+    for i in range(2 if tier == "quick" else 8):
+        yield {"fam": "big", "i": i}
     if tier == "thorough":
         yield {"fam": "huge", "i": 0}
 
@@ -89,6 +91,18 @@ def approx(ctx, pred, refa, backend, fam):
         if (arr != 0).sum() >= 2:
             ctx.nontrivial(gen.arr_key(arr), backend)
     ctx.count("f:backend.%s.%dd" % (backend or "default", pred.ndim))
+    # the same buffers again through a transposed view (same bytes, other memory order) and a Fortran copy,
+    # on the same approximator object: every call is judged against the components of its own input
+    if pred.ndim >= 2 and fam != "nolayout" and ctx.cases_run % 3 == 0:
+        for p2, r2 in ((pred.T, refa.T), (np.asfortranarray(pred), np.asfortranarray(refa))):
+            ctx.count("evaluations")
+            ctx.count("f:C05.layout_variant")
+            try:
+                with pan.quiet():
+                    a.approximate_instances(SemanticPair(p2, r2))
+            except Exception as e:  # noqa: BLE001
+                ctx.viol("approximate_instances_raised", {"exc": repr(e)[:300], "layout": "transposed/fortran", "shape": list(p2.shape), "backend": backend},
+                         features={"backend": backend or "default", "ndim": pred.ndim, "exc": type(e).__name__, "dtype": str(pred.dtype), "layout": True})
 
 
 def run(case, ctx):
@@ -146,6 +160,32 @@ def run(case, ctx):
         for backend in (None, "cc3d", "scipy"):
             approx(ctx, pred, refa, backend, fam)
         return
+    if fam == "big":
+        # more than 2^20 elements, sparse foreground, adjacent different labels and diagonal contacts
+        r = gen.rng(ctx.seed, "big", i)
+        if i % 2 == 0:
+            pred = np.zeros(2**20 + 7, dtype=np.uint8)
+            refa = np.zeros_like(pred)
+            for arr in (pred, refa):
+                for _ in range(6):
+                    p0 = int(r.integers(0, pred.size - 10))
+                    arr[p0 : p0 + 2] = 1
+                    arr[p0 + 2 : p0 + 4] = 2
+        else:
+            pred = np.zeros((1024, 1030), dtype=np.uint8)
+            refa = np.zeros_like(pred)
+            for arr in (pred, refa):
+                for _ in range(6):
+                    y, x = int(r.integers(0, 1020)), int(r.integers(0, 1020))
+                    arr[y, x] = 1
+                    arr[y + 1, x + 1] = 1
+                    arr[y + 2, x + 1] = 2
+        monitors.MAX_VOX = 10**7
+        for backend in (None, "cc3d", "scipy"):
+            approx(ctx, pred, refa, backend, "nolayout")
+        monitors.MAX_VOX = 400_000
+        ctx.count("f:C05.more_than_2^20_elements")
+        return
     if fam == "huge":
         pred = np.zeros(2 * 66000, dtype=np.uint8)
         pred[::2] = 1
@@ -154,4 +194,4 @@ def run(case, ctx):
         monitors.MAX_VOX = 10**7
         for backend in (None, "cc3d"):
             approx(ctx, pred, refa, backend, fam)
-        monitors.MAX_VOX = 40_000
+        monitors.MAX_VOX = 400_000
